@@ -176,7 +176,11 @@ func ruleR02(c *Ctx) {
 	for _, tk := range c.m.Trees {
 		form := c.restoreForm(tk)
 		for _, mname := range []string{"Search", "Delete", "Insert"} {
-			u := c.m.algorithmUnit(tk, mname)
+			u := c.m.effectiveMethod(tk, mname)
+			// a helper of the same tree that carries the loop (Insert → insert): the events are there
+			if au := c.m.algorithmUnit(tk, mname); au != nil && au != u && au.Recv == tk.Name {
+				u = au
+			}
 			if u == nil {
 				c.r.undecided("R02", tk.Name+"."+mname+" missing", "-", "method not found", "C01")
 				continue
